@@ -23,7 +23,11 @@ KINDS = {
     "K1": (1, 2, 0), "K2": (2, 3, 0), "K3": (3, 4, 0),
     "F11": (2, 2, 0), "F12": (3, 3, 0), "F13": (4, 4, 0),
     "kf1": (1, 2, 1), "kf2": (2, 3, 1), "kf3": (3, 4, 1),
+    # the tfel::math::vector<double> constructors of the wrappers (and KrigingUtilities::normalize(tfel::math::vector))
+    "K1v": (1, 2, 0), "K2v": (2, 3, 0), "K3v": (3, 4, 0),
+    "F11v": (2, 2, 0), "F12v": (3, 3, 0), "F13v": (4, 4, 0),
 }
+VKINDS = ("K1v", "K2v", "K3v", "F11v", "F12v", "F13v")
 SITE = {
     "k1": "Kriging<1u,double>", "k2": "Kriging<2u,double>", "k3": "Kriging<3u,double>",
     "pw": "Kriging<1u,double,KrigingPieceWiseLinearModel1D>", "cu": "Kriging<2u,double,CustomL1>",
@@ -31,11 +35,21 @@ SITE = {
     "K1": "Kriging1D", "K2": "Kriging2D", "K3": "Kriging3D",
     "F11": "FactorizedKriging1D1D", "F12": "FactorizedKriging1D2D", "F13": "FactorizedKriging1D3D",
     "kf1": "parser::KrigedFunction<1u>", "kf2": "parser::KrigedFunction<2u>", "kf3": "parser::KrigedFunction<3u>",
+    "K1v": "Kriging1D(tfel::math::vector)", "K2v": "Kriging2D(tfel::math::vector)", "K3v": "Kriging3D(tfel::math::vector)",
+    "F11v": "FactorizedKriging1D1D(tfel::math::vector)", "F12v": "FactorizedKriging1D2D(tfel::math::vector)",
+    "F13v": "FactorizedKriging1D3D(tfel::math::vector)",
 }
-WRAPPERS = ("K1", "K2", "K3", "F11", "F12", "F13")
+WRAPPERS = ("K1", "K2", "K3", "F11", "F12", "F13") + VKINDS
+FACTORIZED = ("f11", "f12", "f13", "F11", "F12", "F13", "F11v", "F12v", "F13v")
+# data classes inside the property's quantifier ("well-separated"); `scaled` = separated points whose raw
+# coordinates are multiplied by a power of two far from 1 (wrappers only: exercises the normalisation)
+WELL = ("sep", "grid", "tensor", "scaled", "symm")
+SCALES = [1.0, 1000.0, 1.0e-3, 37.5]
+TINY, HUGE = [2.0 ** -60, 2.0 ** -75], [2.0 ** 50]      # `scaled` class (a range of 2^-60 is far below 10 eps)
+OFFSETS = [0.0, -5.0, 273.15]
 # kinds whose covariance contains the 1D cubic |h|^3: the conditioning of the system grows like n^3..n^4;
 # the absolute criterion 1e-9 is applied to them for n <= 24 only (beyond: conditioning-aware bound only)
-CUBIC1D = ("k1", "kf1", "K1", "f11", "F11")
+CUBIC1D = ("k1", "kf1", "K1", "f11", "F11", "K1v", "F11v")
 EXACT_KINDS = ("k1", "pw", "cu", "f11")
 KAPPA = 256.0      # multiple of N*eps*(|M_k|_1 |a|_inf + |f_k|) accepted (largest value seen on separated data: < 20)
 
@@ -53,7 +67,7 @@ def unhx(s):
 def min_insufficient(kind):
     """largest n rejected with KrigingErrorInsufficientData"""
     d, nb, _ = KINDS[kind]
-    if kind in ("f11", "f12", "f13", "F11", "F12", "F13"):
+    if kind in FACTORIZED:
         return max(1, nb - 1)     # n <= Model1::nb (=1) or n <= Model2::nb (= nb - 1)
     return nb
 
@@ -90,10 +104,15 @@ def dyadic(rng, n, d):
     return pts
 
 
-def make_request(rng, kind, n, cls, nq=2):
+def make_request(rng, kind, n, cls, nq=2, extra=None, scales=None):
+    """extra = c (wrappers only): argument number c of the constructor (0..d-1 coordinate columns, d values) gets
+    one element too many; the kind token becomes `<kind>+c` and KrigingErrorInvalidLength is the expected answer"""
     d, nb, nn = KINDS[kind]
-    if cls == "sep":
+    if cls in ("sep", "scaled"):
         pts = separated(rng, n, d)
+    elif cls == "symm":
+        pts = separated(rng, n, d, frac=0.4)
+        pts = [[0.05 + 0.9 * v for v in p] for p in pts]
     elif cls == "grid":
         pts = jittered(rng, n, d)
     elif cls == "dyadic":
@@ -112,9 +131,19 @@ def make_request(rng, kind, n, cls, nq=2):
         pts = [[0.25] + [rng.random() for _ in range(d - 1)] for _ in range(n)]
     else:
         pts = [[rng.random() for _ in range(d)] for _ in range(n)]
-    if kind in WRAPPERS and cls != "degenerate":
-        sc = [rng.choice([1.0, 1000.0, 1.0e-3, 37.5]) for _ in range(d)]
-        of = [rng.choice([0.0, -5.0, 273.15]) for _ in range(d)]
+    if cls == "symm":
+        # columns spanning exactly [-1, 1] (max = -min): point 0 and point 1 are opposite corners
+        pts = [[2.0 * v - 1.0 for v in p] for p in pts]
+        pts[0] = [-1.0] * d
+        pts[1] = [1.0] * d
+        q = [2.0 * rng.random() - 1.0 for _ in range(nq * d)]
+    elif kind in WRAPPERS and cls == "scaled":
+        sc = [rng.choice(scales or TINY + HUGE) for _ in range(d)]
+        pts = [[p[c] * sc[c] for c in range(d)] for p in pts]
+        q = [rng.random() * sc[c] for _ in range(nq) for c in range(d)]
+    elif kind in WRAPPERS and cls != "degenerate":
+        sc = [rng.choice(SCALES) for _ in range(d)]
+        of = [rng.choice(OFFSETS) for _ in range(d)]
         pts = [[p[c] * sc[c] + of[c] for c in range(d)] for p in pts]
         q = [rng.random() * sc[c] + of[c] for _ in range(nq) for c in range(d)]
     else:
@@ -127,8 +156,10 @@ def make_request(rng, kind, n, cls, nq=2):
         nugs = []
     f = [rng.uniform(-1, 1) * rng.choice([1.0, 1.0, 100.0]) for _ in range(n)]
     flat = [v for p in pts for v in p]
-    line = "%s %d %d %s" % (kind, n, nq, " ".join(hx(v) for v in nugs + flat + f + q))
-    return {"kind": kind, "n": n, "nq": nq, "cls": cls, "nugs": nugs, "pts": pts, "f": f, "line": line.rstrip()}
+    token = kind if extra is None else "%s+%d" % (kind, extra)
+    line = "%s %d %d %s" % (token, n, nq, " ".join(hx(v) for v in nugs + flat + f + q))
+    return {"kind": kind, "n": n, "nq": nq, "cls": cls, "nugs": nugs, "pts": pts, "f": f, "line": line.rstrip(),
+            "extra": extra}
 
 
 def rat(fr):
@@ -227,7 +258,7 @@ def assess(req, ia):
                 fails.append(("reproduction-conditioning",
                               "training point %d: |K(x_k) - (f_k - nugget_k a_k)| = %.3e exceeds %g N eps (|M_k|_1 |a|_inf + |f_k|) = %.3e"
                               % (r, e, KAPPA, bound)))
-            well = req["cls"] in ("sep", "grid", "tensor") and (req["kind"] not in CUBIC1D or n <= 24)
+            well = req["cls"] in WELL and (req["kind"] not in CUBIC1D or n <= 24)
             if well and e > 1.0e-9 * max(fscale, abs(nug * a[r])):
                 fails.append(("reproduction-1e-9",
                               "training point %d of well separated data: K(x_k) = %.17g, expected f_k - nugget_k a_k = %.17g (|diff| = %.3e > 1e-9 relative)"
@@ -253,6 +284,50 @@ def assess_exact(req, ia):
                           % (k, ev[k], f[k] - nug * a[k])))
             break
     return fails
+
+
+def build_requests(rng_main, seed, quick):
+    """the requests of one run.  The 17 original kinds draw from `rng_main` (the check's generator, used for the
+    exact requests afterwards); everything added by the mutation audit (the tfel::math::vector constructors,
+    the `scaled` class, the length mismatches) draws from a generator of its own."""
+    reqs = []
+    rng2 = random.Random("C19-audit-%d" % seed)
+    reps = 1 if quick else 12
+    for kind in KINDS:
+        rng = rng2 if kind in VKINDS else rng_main
+        lo = min_insufficient(kind)
+        sizes_quick = lambda lo: [lo + 1, lo + 2, rng.randrange(lo + 3, 13), rng.randrange(13, 25), rng.randrange(25, 41)]
+        for _ in range(reps):
+            for cls in ("sep", "grid"):
+                for n in sizes_quick(lo) + ([40] if cls == "grid" else []):
+                    reqs.append(make_request(rng, kind, n, cls))
+            for n in (lo + 1, rng.randrange(lo + 2, 20)):
+                reqs.append(make_request(rng, kind, n, "dyadic"))
+            reqs.append(make_request(rng, kind, rng.randrange(lo + 1, 41), "rand"))
+            if kind in FACTORIZED:
+                for n in (rng.randrange(6, 13), rng.randrange(13, 31)):
+                    reqs.append(make_request(rng, kind, n, "tensor"))
+            if kind in WRAPPERS:
+                # raw coordinates spanning 2^-60 .. 2^50: normalize must not take a small range for a null one
+                for n, scales in ((lo + 1, TINY), (rng2.randrange(lo + 2, 13), HUGE), (rng2.randrange(13, 25), None)):
+                    reqs.append(make_request(rng2, kind, n, "scaled", scales=scales))
+                # raw coordinates spanning exactly [-1, 1]: max + min = 0
+                for n in (lo + 2, rng2.randrange(lo + 3, 20)):
+                    reqs.append(make_request(rng2, kind, n, "symm"))
+        if kind in WRAPPERS:
+            # one constructor argument longer than the others: KrigingErrorInvalidLength
+            for c in range(1, KINDS[kind][0] + 1):
+                reqs.append(make_request(rng2, kind, lo + 2 + c, "sep", extra=c))
+        # rejected inputs
+        for n in range(1, lo + 1):
+            reqs.append(make_request(rng, kind, n, "rand"))
+        if kind not in WRAPPERS:
+            reqs.append(make_request(rng, kind, 0, "rand"))
+        else:
+            reqs.append(make_request(rng, kind, lo + 3, "degenerate"))
+        if KINDS[kind][0] >= 2 and kind not in ("cu",):
+            reqs.append(make_request(rng, kind, lo + 4, "collinear"))
+    return reqs
 
 
 # ------------------------------------------------------------------ the check
@@ -286,30 +361,7 @@ def run(ck):
         driver, res = fl.result()
 
     # ---- requests
-    reqs = []
-    sizes_quick = lambda lo: [lo + 1, lo + 2, rng.randrange(lo + 3, 13), rng.randrange(13, 25), rng.randrange(25, 41)]
-    reps = 1 if ck.quick else 12
-    for kind in KINDS:
-        lo = min_insufficient(kind)
-        for _ in range(reps):
-            for cls in ("sep", "grid"):
-                for n in sizes_quick(lo) + ([40] if cls == "grid" else []):
-                    reqs.append(make_request(rng, kind, n, cls))
-            for n in (lo + 1, rng.randrange(lo + 2, 20)):
-                reqs.append(make_request(rng, kind, n, "dyadic"))
-            reqs.append(make_request(rng, kind, rng.randrange(lo + 1, 41), "rand"))
-            if kind in ("f11", "f12", "f13", "F11", "F12", "F13"):
-                for n in (rng.randrange(6, 13), rng.randrange(13, 31)):
-                    reqs.append(make_request(rng, kind, n, "tensor"))
-        # rejected inputs
-        for n in range(1, lo + 1):
-            reqs.append(make_request(rng, kind, n, "rand"))
-        if kind not in WRAPPERS:
-            reqs.append(make_request(rng, kind, 0, "rand"))
-        else:
-            reqs.append(make_request(rng, kind, lo + 3, "degenerate"))
-        if KINDS[kind][0] >= 2 and kind not in ("cu",):
-            reqs.append(make_request(rng, kind, lo + 4, "collinear"))
+    reqs = build_requests(rng, ck.seed, ck.quick)
     text = "".join(r["line"] + "\n" for r in reqs)
     parts = []
     for b in ("c19h1", "c19h2"):
@@ -358,18 +410,27 @@ def run(ck):
                "values": r["f"], "nuggets": r["nugs"], "implementation": (impl[i] if i < len(impl) else "missing")[:4000],
                "model": (model[i] if i < len(model) else "missing")[:4000]}
         fails = []
-        if ia["status"] == "ok":
+        if r.get("extra") is not None:
+            # one constructor argument longer than the others: the only acceptable answer is KrigingErrorInvalidLength
+            stats["length_mismatch_requests"] = stats.get("length_mismatch_requests", 0) + 1
+            rep["longer_argument"] = r["extra"]
+            if not (ia["status"] == "err" and ia.get("err") == "invalid-length"):
+                fails = [("length-check", "constructor argument %d has %d elements, the others %d: KrigingErrorInvalidLength expected, got '%s'"
+                          % (r["extra"], n + 1, n, (impl[i] if i < len(impl) else "missing")[:60]))]
+            else:
+                stats["err"]["invalid-length"] = stats["err"].get("invalid-length", 0) + 1
+        elif ia["status"] == "ok":
             stats["ok"] += 1
             classes.add((kind, n, cls, bool(any(r["nugs"]))))
             fails, st = assess(r, ia)
-            if st and cls in ("sep", "grid", "tensor", "dyadic"):
+            if st and cls in WELL + ("dyadic",):
                 stats["max_p2_ratio"] = max(stats["max_p2_ratio"], st["p2"])
                 stats["max_p3_ratio"] = max(stats["max_p3_ratio"], st["p3"])
                 if cls != "dyadic" and (kind not in CUBIC1D or n <= 24):
                     stats["max_rel_error_well_separated"] = max(stats["max_rel_error_well_separated"], st["abs"])
             elif st:
                 stats["max_p2_ratio_rand_class"] = max(stats["max_p2_ratio_rand_class"], st["p2"])
-            if cls not in ("sep", "grid", "tensor"):
+            if cls not in WELL:
                 # clustered / dyadic / collinear data may be arbitrarily ill conditioned: outside the property's
                 # quantifier ("well-separated"); only exactness-independent criteria are kept
                 fails = [f for f in fails if f[0] in ("shape",)]
@@ -378,7 +439,12 @@ def run(ck):
             stats["err"][e] = stats["err"].get(e, 0) + 1
             if ia["status"] != "err" or e in ("other", "no-capture"):
                 fails = [("unexpected-answer", "the harness answered '%s'" % (impl[i] if i < len(impl) else "missing")[:200])]
-            elif cls in ("sep", "grid", "tensor") and n > min_insufficient(kind):
+            elif e == "index-unchecked":
+                fails = [("index-check", "setVariableValue with an index beyond the last variable is not rejected (or changes the variables): "
+                          "after it getValue() at training point 0 no longer returns the value computed there")]
+            elif e == "clone-differs":
+                fails = [("copy", "the copy made by resolveDependencies / createFunctionByChangingParametersIntoVariables does not return the value of the original")]
+            elif cls in WELL and n > min_insufficient(kind):
                 fails = [("no-interpolant", "building the interpolant on %d well separated points failed: %s" % (n, e))]
         # correspondence with the model: same status; matrix, right-hand side, evaluations bit for bit
         same = True
@@ -485,7 +551,7 @@ def run(ck):
     return ck.finish({
         "units_traced": len(units), "outputs_traced": sum(len(u.outs) for u in units),
         "evaluations": len(reqs) + len(xreqs), "distinct_nontrivial": len(classes) + xstats["ok"],
-        "rule": "requests = 17 instantiations (Kriging<1,2,3>, piecewise-linear, custom per-point nugget, FactorizedKriging<1,M>, the 6 wrappers, KrigedFunction<1,2,3>) x sizes (smallest accepted .. 40) x data classes (separated, jittered grid, tensor grid for the factorized kinds, dyadic, clustered, collinear, degenerate, too few points); distinct non-trivial = distinct (kind, n, class, nugget?) for which an interpolant was built and compared cell by cell + exact-scalar requests solved",
+        "rule": "requests = 23 instantiations (Kriging<1,2,3>, piecewise-linear, custom per-point nugget, FactorizedKriging<1,M>, the 6 wrappers through their std::vector and through their tfel::math::vector constructors, KrigedFunction<1,2,3> incl. copies and rejected indices) x sizes (smallest accepted .. 40) x data classes (separated, jittered grid, tensor grid for the factorized kinds, separated with raw coordinates scaled by 2^-60..2^50, separated spanning exactly [-1,1], dyadic, clustered, collinear, degenerate, too few points, one constructor argument too long); distinct non-trivial = distinct (kind, n, class, nugget?) for which an interpolant was built and compared cell by cell + exact-scalar requests solved",
         "exhaustive": False, "float_stats": stats, "exact_stats": xstats,
         "property_failures": len(failures),
         "traces_validated_against_impl": len(reqs) + len(xreqs),
